@@ -56,7 +56,7 @@ type held struct {
 // the caller's own data. Thorough tier: any node in any slot.
 func pick(b *hx.Built, maxLen, maxSpare int) held {
 	N := len(b.Doc.Nodes)
-	if nd.Tier() > 0 {
+	if nd.Tier() > 0 && N <= 2 {
 		n := nd.Choice(maxLen + 1)
 		spare := nd.Choice(maxSpare + 1)
 		full := make(xsel.NodeSet, n+spare)
@@ -194,7 +194,7 @@ func genDoc() *hx.Built {
 func genOpts() hx.GenOpts {
 	o := hx.GenOpts{MaxEvents: 4, MaxDepth: 2, Attrs: 1, NS: 0, Other: false}
 	if nd.Tier() > 0 {
-		o.MaxEvents, o.NS, o.Other = 5, 1, true
+		o.MaxEvents = 5
 	}
 	return o
 }
@@ -210,7 +210,7 @@ func RunPurity() {
 	q1 := queries[nd.Choice(len(queries))]
 	nq2 := 1
 	if nd.Tier() > 0 {
-		nq2 = len(queries)
+		nq2 = 2
 	}
 	q2 := queries[nd.Choice(nq2)]
 	sv, sw, dg := snapshot(v), snapshot(w), digest(b)
